@@ -81,3 +81,15 @@ Example c06_failed_add_table_hypotheses_nonvacuous : exists src,
 Proof.
   eexists. split; [vm_compute; reflexivity|]. vm_compute. repeat split. right. left. reflexivity.
 Qed.
+
+(* builder reuse: the hypotheses of c06_apply_ops_reuse hold for the three-table font above, and a second
+   font built from the same builder value lists only its own table *)
+Example c06_reuse_hypotheses_nonvacuous : exists file,
+  fold_left apply_op (map (fun o => (0, fst o, snd o)) ex_ops) (Some []) = Some ex_m /\
+  build ex_m = Some file /\
+  after_build ((TAG_name, []) :: ex_m) = [] /\
+  match fold_left apply_op (map (fun o => (0, fst o, snd o)) ex_ops ++ [(6, 0, file); (0, TAG_name, [1])]) (Some []) with
+  | Some m => m = [(TAG_name, [1])]
+  | None => False
+  end.
+Proof. eexists. split; [vm_compute; reflexivity|]. split; [vm_compute; reflexivity|]. vm_compute. split; reflexivity. Qed.
